@@ -149,6 +149,47 @@ REVERTS = [
     ('revert-F37-overwrite-keys-astype-str', ['C09'], 'fastparquet/writer.py',
      "    keys = data.loc[:,defined_partitions].apply(lambda col: col.map(path_string))\n",
      "    keys = data.loc[:,defined_partitions].astype(str)\n"),
+    ('revert-F38-consolidate-bytes-keys-only', ['C07'], 'fastparquet/writer.py',
+     "                             if k.key in (b'num_categories', 'num_categories')]\n", "                             if k.key == b'num_categories']\n"),
+    ('revert-F39-tz-partition-type-to-np-dtype', ['C08'], 'fastparquet/util.py',
+     """        if nt.startswith('datetime64[') and ',' in nt:
+            # time-zone aware ('datetime64[us, UTC]'): not a numpy dtype; the
+            # directory text is ISO format and carries the offset
+            return pd.Timestamp(x)
+""", ""),
+    ('revert-F40-separators-in-key-text-accepted', ['C08'], 'fastparquet/writer.py',
+     """                raise ValueError("Partition value %r cannot be used as a "
+                                 "directory name" % (val,))
+""", """                pass
+"""),
+    ('revert-F41-per-value-text-switch', ['C08'], 'fastparquet/api.py',
+     """        if any(isinstance(tp, str) for tp in typed):
+""", """        if False:
+"""),
+    ('revert-F42-check-32-off-by-one', ['C12'], 'fastparquet/writer.py', "    if x >= 2**31:\n", "    if x > 2**31:\n"),
+    ('revert-F43-offsets-not-validated', ['C01'], 'fastparquet/writer.py',
+     """        if (row_group_offsets[:1] != [0]
+                or sorted(set(row_group_offsets)) != row_group_offsets):
+""", """        if False:
+"""),
+    ('revert-F44-codec-default-none', ['C02'], 'fastparquet/writer.py',
+     '        algorithm = compression.get("type", "gzip")\n', '        algorithm = compression.get("type", None)\n'),
+    ('revert-F45-categorical-null-in-required-written', ['C02', 'C07'], 'fastparquet/writer.py',
+     """            if (isinstance(data.dtype, pd.CategoricalDtype)
+                    and (data.cat.codes == -1).any()):
+""", """            if False:
+"""),
+    ('revert-F46-stats-by-position', ['C17'], 'fastparquet/api.py',
+     """                        chunk = [c for c in rg[1] if c[3][3] == [col]]
+                        st = chunk[0][3].get(12) if chunk else None
+""", """                        st = rg[1][i][3].get(12)
+"""),
+    ('revert-F47-prune-on-int96', ['C05'], 'fastparquet/api.py',
+     """            if column.meta_data.type == parquet_thrift.Type.INT96:
+                # INT96 statistics have no defined order (and are raw 12-byte
+                # strings here): never prune on them
+                continue
+""", ""),
 ]
 
 # functions whose twins are run per property (module, qualname)
